@@ -242,6 +242,8 @@ AXIAL = {
     'mid': [1.2, 0.0, -2.4],
     'ends': [0.8, 0.0, 2.4],
     'cubic': [1.0, 0.3, -1.2, 1.5],
+    # from 2 % to 198 % of the cell average across the cell
+    'steep': [1.0, 1.96],
 }
 
 
